@@ -188,6 +188,9 @@ _tag_re = re.compile(r'<<"(MODEL-DRIFT|SPEC-ERROR|UNCOVERED|UNDECIDED)", (\d+), 
 
 
 def tlc_trace(name, module, cfg, trace, timeout=1800, xmx="3g", env=None):
+    # up to 16 of these run side by side: keep each JVM's heap ceiling low (traces arrive in parts of PART_BYTES)
+    if xmx.endswith("g") and int(xmx[:-1]) > 3:
+        xmx = "3g"
     """Validate an ndjson trace with a Trace_* specification.  Returns dict(ok, rejects=[(line, case)],
     events, error).  ok means TLC ran to completion and consumed every line; rejects are verdicts."""
     ensure_dirs()
@@ -267,7 +270,7 @@ def read_ndjson(path):
         return [json.loads(l) for l in f if l.strip()]
 
 
-PART_BYTES = 48 * 1024 * 1024
+PART_BYTES = 24 * 1024 * 1024
 
 
 def split_trace(path, key="case"):
